@@ -137,7 +137,11 @@ def build(filled, deflang=None, delim="::", ref=False, second_select=True, defla
         choices = [_reversed_cells(c) for c in choices]
     wb = {"survey": rows, "choices": choices}
     kw = {}
-    if deflang and not deflang_arg:
+    if deflang and deflang_arg == "both":
+        # the settings sheet and a *different* convert() argument: the sheet is documented to win
+        wb["settings"] = [{"default_language": deflang}]
+        kw["default_language"] = "fr" if deflang != "fr" else "en"
+    elif deflang and not deflang_arg:
         wb["settings"] = [{"default_language": deflang}]
     elif deflang:
         kw["default_language"] = deflang
